@@ -1095,6 +1095,47 @@ class Flattener(object):
             i += 1
         return out
 
+    def _sink_test_through_flag(self, stmts):
+        """if c: S1; flag = True else: S2; flag = False           if c: S1; flag = True; P
+           if flag: P else: Q                               ==>   else: S2; flag = False; Q
+        (each branch binds the flag to a literal, once, at its own level; the following test is decided per branch)"""
+        out = []
+        i = 0
+        stmts = list(stmts)
+        while i < len(stmts):
+            s = stmts[i]
+            nxt = stmts[i + 1] if i + 1 < len(stmts) else None
+            done = False
+            if isinstance(s, ast.If) and s.orelse and isinstance(nxt, ast.If):
+                t = nxt.test
+                neg = False
+                if isinstance(t, ast.UnaryOp) and isinstance(t.op, ast.Not):
+                    t, neg = t.operand, True
+                if isinstance(t, ast.Name):
+                    flag = t.id
+
+                    def const_of(branch):
+                        vals = [b.value.value for b in branch if isinstance(b, ast.Assign) and len(b.targets) == 1 and
+                                isinstance(b.targets[0], ast.Name) and b.targets[0].id == flag and isinstance(b.value, ast.Constant)
+                                and isinstance(b.value.value, bool)]
+                        stores = [n for b in branch for n in ast.walk(b) if isinstance(n, ast.Name) and n.id == flag and isinstance(n.ctx, ast.Store)]
+                        return vals[0] if len(vals) == 1 and len(stores) == 1 else None
+                    a, b = const_of(s.body), const_of(s.orelse)
+                    if a is not None and b is not None and not _terminates(s.body) and not _terminates(s.orelse):
+                        def pick(v):
+                            taken = nxt.body if (v != neg) else nxt.orelse
+                            return [clone(x) for x in taken]
+                        s.body = list(s.body) + pick(a)
+                        s.orelse = list(s.orelse) + pick(b)
+                        out.append(s)
+                        self.desugared += 1
+                        i += 2
+                        done = True
+            if not done:
+                out.append(s)
+                i += 1
+        return out
+
     def _split_tuple_copies(self, stmts):
         """t = (a, b); x, y = t   ==>   x, y = (a, b)      (t used nowhere else)
            x, y = (a, b)           ==>   x = a; y = b       (a, b names / constants none of which is x or y)"""
@@ -1166,6 +1207,7 @@ class Flattener(object):
 
     def desugar(self, stmts):
         stmts = self._sink_test_through_choice(stmts)
+        stmts = self._sink_test_through_flag(stmts)
         stmts = self._split_tuple_copies(stmts)
         stmts = self._coalesce_copies(stmts)
         out = []
@@ -1336,12 +1378,28 @@ class Flattener(object):
             for n in ast.walk(fn):
                 if isinstance(n, ast.Name) and isinstance(n.ctx, ast.Store):
                     counts[n.id] = counts.get(n.id, 0) + 1
-            if any(counts.get(nm, 0) > 1 for nm in frozen):
-                continue
             uses = [n for n in ast.walk(fn) if isinstance(n, ast.Name) and n.id == name and isinstance(n.ctx, ast.Load)]
             calls = [c for c in ast.walk(fn) if isinstance(c, ast.Call) and isinstance(c.func, ast.Name) and c.func.id == name]
             if not calls or len(uses) != len(calls):
                 continue
+            if any(counts.get(nm, 0) > 1 for nm in frozen):
+                # re-bound somewhere: fine when every call follows the binding in the same statement list and nothing in
+                # between (or around the calls) stores to those names
+                block = None
+                for holder in ast.walk(fn):
+                    for field in ('body', 'orelse', 'finalbody'):
+                        blk = getattr(holder, field, None)
+                        if isinstance(blk, list) and any(b is d for b in blk):
+                            block = blk
+                if block is None:
+                    continue
+                idx = next(k for k, b in enumerate(block) if b is d)
+                rest = block[idx + 1:]
+                rest_ids = {id(n) for r_ in rest for n in ast.walk(r_)}
+                if not all(id(c) in rest_ids for c in calls):
+                    continue
+                if any(isinstance(n, ast.Name) and n.id in frozen and isinstance(n.ctx, (ast.Store, ast.Del)) for r_ in rest for n in ast.walk(r_)):
+                    continue
             for c in calls:
                 c.func = clone(v.args[0])
                 c.args = [clone(a) for a in v.args[1:]] + list(c.args)
@@ -1612,6 +1670,22 @@ class Flattener(object):
             cc = CC()
             s = cc.visit(s)
             self.desugared += cc.n
+        # for i, x in enumerate(IT, start): BODY    ==>    n = start; for x in IT: i = n; n += 1; BODY
+        if isinstance(s, ast.For) and isinstance(s.iter, ast.Call) and isinstance(s.iter.func, ast.Name) and s.iter.func.id == 'enumerate' and \
+                1 <= len(s.iter.args) <= 2 and isinstance(s.target, ast.Tuple) and len(s.target.elts) == 2 and isinstance(s.target.elts[0], ast.Name) \
+                and not s.orelse and all(k.arg == 'start' for k in s.iter.keywords) and len(s.iter.keywords) <= 1:
+            start = s.iter.args[1] if len(s.iter.args) == 2 else (s.iter.keywords[0].value if s.iter.keywords else ast.Constant(value=0))
+            if _pure(start) and (self._is_generator_call(s.iter.args[0]) or isinstance(s.iter.args[0], (ast.GeneratorExp,))):
+                cnt = self.fresh('_count', next(self.counter))
+                init = ast.copy_location(ast.Assign(targets=[ast.Name(id=cnt, ctx=ast.Store())], value=start), s)
+                take = ast.copy_location(ast.Assign(targets=[s.target.elts[0]], value=ast.Name(id=cnt, ctx=ast.Load())), s)
+                inc = ast.copy_location(ast.AugAssign(target=ast.Name(id=cnt, ctx=ast.Store()), op=ast.Add(), value=ast.Constant(value=1)), s)
+                loop = ast.copy_location(ast.For(target=s.target.elts[1], iter=s.iter.args[0], body=[take, inc] + list(s.body), orelse=[],
+                                                 type_comment=None), s)
+                for x_ in (init, loop):
+                    ast.fix_missing_locations(x_)
+                self.desugared += 1
+                return [init] + self.desugar([loop])
         # for x in A + B: BODY    ==>    for x in A: BODY;  for x in B: BODY      (no break in BODY; A and B are evaluated first
         # in both forms when they are names - otherwise only when evaluating them is pure)
         if isinstance(s, ast.For) and isinstance(s.iter, ast.BinOp) and isinstance(s.iter.op, ast.Add) and not s.orelse and \
